@@ -859,3 +859,13 @@ func init() {
 	mutant("header-parsed-despite-short-read", "result-with-error-untouched", "frameHeader.go", "	header, err := br.Peek(DefaultFrameSize)\n	if err != nil {\n		return -1, err\n	}\n", "	header, err := br.Peek(DefaultFrameSize)\n")
 	mutant("socket-used-despite-dial-error", "result-with-error-untouched", "conn.go", "		c, err = net.DialTCP(\"tcp\", nil, tcpAddr)\n		if err != nil {\n			return nil, err\n		}\n", "		c, err = net.DialTCP(\"tcp\", nil, tcpAddr)\n")
 }
+
+func init() {
+	mutant("frame-header-comes-out-dirty", "pooled-objects-come-out-reset", "frameHeader.go", "	fr := frameHeaderPool.Get().(*FrameHeader)\n	fr.Reset()\n", "	fr := frameHeaderPool.Get().(*FrameHeader)\n")
+	mutant("frame-body-comes-out-dirty", "pooled-objects-come-out-reset", "frame.go", "	fr := framePools[ftype].Get().(Frame)\n	fr.Reset()\n", "	fr := framePools[ftype].Get().(Frame)\n")
+	mutant("header-field-goes-in-dirty", "pooled-objects-come-out-reset", "headerField.go", "	hf.Reset()\n	headerPool.Put(hf)", "	headerPool.Put(hf)")
+	mutant("request-ctx-keeps-the-last-response", "pooled-objects-come-out-reset", "serverConn.go", "	ctx.Request.Reset()\n	ctx.Response.Reset()\n", "	ctx.Request.Reset()\n")
+	mutant("hpack-comes-out-with-a-table", "pooled-objects-come-out-reset", "hpack.go", "	hp := hpackPool.Get().(*HPACK)\n	hp.Reset()\n", "	hp := hpackPool.Get().(*HPACK)\n")
+	mutant("reader-releases-on-success", "readers-return-frame-or-error", "frameHeader.go", "	fr.maxLen = max\n\n	_, err := fr.ReadFrom(br)\n	if err != nil {", "	fr.maxLen = max\n\n	_, err := fr.ReadFrom(br)\n	if err == nil {")
+	mutant("reader-keeps-the-frame-with-the-error", "readers-return-frame-or-error", "frameHeader.go", "			frameHeaderPool.Put(fr)\n		}\n\n		fr = nil\n	}\n\n	return fr, err\n}\n\nfunc ReadFrameFromWithSize", "			frameHeaderPool.Put(fr)\n		}\n	}\n\n	return fr, err\n}\n\nfunc ReadFrameFromWithSize")
+}
